@@ -46,6 +46,13 @@ def setup(params):
             want_w, want_n = len(msg_dict.get('withdraw') or []), len(msg_dict.get('nlri') or [])
             if nn != want_n or (nw != want_w and nw != 0):
                 VERDICT['bad'] += 1
+            attrs = msg_dict.get('attr') or {}
+            counts = walker.update_mp_counts(raw)
+            for code, key in ((14, 'nlri'), (15, 'withdraw')):
+                val = attrs.get(code, attrs.get(str(code)))
+                if code in counts and counts[code] is not None and isinstance(val, dict) and isinstance(val.get(key), list):
+                    if counts[code] != len(val[key]):
+                        VERDICT['bad'] += 1
         return raw
     Update.construct = classmethod(construct)
     Update._vf_wrapped = True
@@ -191,6 +198,41 @@ def ob_sizes(x: int) -> bool:
     return _update_with(attr)
 
 
+def ob_after_big(asn: int, med: int, x: int) -> bool:
+    """one process, two messages: first messages whose attributes need the extended-length form (AS_PATH, communities,
+    cluster list, MP_REACH over 255 octets), then an ordinary one with symbolic fields - which must be as well formed
+    as if it had been the first (nothing of the big message may stick to the classes)"""
+    from yabgp.message.update import Update
+    assume(1 <= asn < 65536 and 0 <= med < 2 ** 32 and 0 <= x < 256)
+    asn4 = P.get('asn4', False)
+    VERDICT['walked'] = VERDICT['bad'] = VERDICT['none'] = 0
+    bigs = [{2: [[2, [65000 + (i % 500) for i in range(200)]]]},
+            {2: [], 8: ['65000:%d' % i for i in range(70)]},
+            {2: [], 10: ['10.0.%d.%d' % (i // 256, i % 256) for i in range(70)]},
+            {2: [], 16: [[0x0002, '65000:%d' % i] for i in range(40)]},
+            {2: [], 32: ['1:2:%d' % i for i in range(30)]},
+            {2: [], 14: {'afi_safi': (2, 1), 'nexthop': '2001:db8::1', 'nlri': ['2001:db8:%x::/48' % i for i in range(40)]}}]
+    built = 0
+    for extra in bigs:
+        attr = {1: 0, 3: '10.0.0.1'}
+        attr.update(extra)
+        try:
+            Update.construct({'attr': attr, 'nlri': ['10.0.0.0/8']}, asn4)
+            built += 1
+        except Exception:
+            pass                  # an attribute that cannot grow beyond 255 octets is refused loudly: fine
+    if built < 2:
+        return False
+    if VERDICT['bad'] or VERDICT['none']:
+        return False
+    cover('big')
+    small = {1: 0, 2: [[2, [asn, 65001]]], 3: '10.0.%s.1' % x, 4: med, 8: ['65000:1'], 10: ['10.0.0.9'],
+             16: [[0x0002, '65000:7']], 32: ['1:2:3']}
+    Update.construct({'attr': small, 'nlri': ['10.1.0.0/16']}, asn4)
+    Update.construct({'attr': {1: 0, 2: [], 14: {'afi_safi': (2, 1), 'nexthop': '2001:db8::1', 'nlri': ['2001:db8::/32']}}}, asn4)
+    return VERDICT['bad'] == 0 and VERDICT['none'] == 0 and VERDICT['walked'] == built + 2
+
+
 def obligations(tier, seed):
     quick = tier == 'quick'
     from vf import loader
@@ -229,6 +271,8 @@ def obligations(tier, seed):
     for i, r in enumerate(rules):
         for d in ('reach', 'unreach'):
             out.append(ob('C08/flowspec6/%s/rule%d' % (d, i), 'ob_flowspec6', {'dir': d, 'rule': r}))
+    for asn4 in (False, True):
+        out.append(ob('C08/after-big-messages/asn4=%s' % asn4, 'ob_after_big', {'asn4': asn4}, covers=['big'], cap=200))
     for kind, ns in (('communities', (63, 64)), ('extcomm', (31, 32)), ('largecomm', (21, 22)), ('cluster', (63, 64)),
                      ('nlri', (1000, 1100))):
         for n in ns:
